@@ -157,6 +157,12 @@ func (sesh *Session) OpenStream() (*Stream, error) {
 	}
 	stream := makeStream(sesh, id)
 	sesh.streamsM.Lock()
+	// closeSession closes every registered stream under streamsM after setting the closed flag, so the flag
+	// has to be re-checked here: a stream registered after that would never be closed
+	if sesh.IsClosed() {
+		sesh.streamsM.Unlock()
+		return nil, ErrBrokenSession
+	}
 	sesh.streams[id] = stream
 	sesh.streamsM.Unlock()
 	sesh.streamCountIncr()
